@@ -322,7 +322,7 @@ theorem mergedOf_get_ran (mk : Marks) (l : List Script)
   have hwn : ((l.flatMap writesOf).map (·.1)).Nodup := ((flat_writes_keys_perm l).nodup_iff).2 hd
   have hos : get? (resultsOf mk l).os (caseName s i) = some (outcomeOf mk (caseName s i) cls) := by
     rw [resultsOf_os]; exact applyWrites_get_mem mk _ [] hwn _ hw
-  simp only [hcls]
+  simp only [ranCase, hcls]
   rw [finalOutcome_ran mk _ cls _ (hex _ hnl), mergedOf_get, hos]
   by_cases hfb : caseName s i ∈ (notesOf s).map (·.1)
   · rw [if_pos ((mem_flat_notes_iff l hlen hd s hs _ hnb).2 hfb), (any_name_iff _ _).2 hfb]; rfl
@@ -416,7 +416,7 @@ theorem sched_prefix (w : List Client) :
 def allNames (w : List Client) : List String := (allScripts w).flatMap batchNames
 
 theorem names_ranCases (mk : Marks) (s : Script) : names (ranCases mk s) = batchNames s := by
-  simp [names, ranCases, batchNames, List.map_map, Function.comp_def]
+  simp [names, ranCases, ranCase, batchNames, List.map_map, Function.comp_def]
 
 theorem names_missingCases (mk : Marks) (s : Script) : names (missingCases mk s) = batchNames s := by
   simp [names, missingCases, batchNames, List.map_map, Function.comp_def]
@@ -511,5 +511,174 @@ theorem missing_not_meets (mk : Marks) (s : Script) (hne : 0 < s.cases.length) :
     ∃ c ∈ missingCases mk s, c.meets = false := by
   refine ⟨_, List.mem_map.2 ⟨0, List.mem_range.2 hne, rfl⟩, ?_⟩
   simp [Case.meets, Case.ran]
+
+
+theorem classAt_mem (s : Script) (i : Nat) (cls : ServerRunner.Class) (h : classAt s i = some cls) :
+    (i, cls) ∈ (runBatch s).log := by
+  unfold classAt at h
+  cases hf : (runBatch s).log.find? (fun e => e.1 == i) with
+  | none => simp [hf] at h
+  | some x =>
+    simp only [hf, Option.map_some, Option.some.injEq] at h
+    have h1 := List.find?_some hf
+    have h2 := List.mem_of_find?_eq_some hf
+    have h3 : x.1 = i := by simpa using h1
+    rw [← h3, ← h]; exact h2
+
+/-! ### when `run()` returns without error -/
+
+theorem batchSched_ok_iff (bs : List Batch) :
+    (batchSched bs).2 = false ↔ ∀ b ∈ bs, b.noticed = false := by
+  induction bs with
+  | nil => simp [batchSched]
+  | cons b rest ih =>
+    by_cases hn : b.noticed = true
+    · simp [batchSched, hn]
+    · have hn' : b.noticed = false := by simpa using hn
+      simp [batchSched, hn', ih]
+
+theorem sched_ok_iff (w : List Client) :
+    (sched w).2 = .ok ↔ Clean w ∧ ∀ c ∈ w, ∀ b ∈ c.batches, b.noticed = false := by
+  induction w with
+  | nil => simp [sched, Clean]
+  | cons c rest ih =>
+    by_cases hs : c.startErr = true
+    · simp [sched, hs, Clean]
+    · have hs' : c.startErr = false := by simpa using hs
+      by_cases hb : (batchSched c.batches).2 = true
+      · have : ¬ ∀ b ∈ c.batches, b.noticed = false := fun h => by
+          rw [(batchSched_ok_iff c.batches).2 h] at hb; cases hb
+        simp only [sched, hs', hb, if_true, Bool.false_eq_true, if_false]
+        constructor
+        · intro h; cases h
+        · rintro ⟨_, h⟩; exact absurd (h c List.mem_cons_self) this
+      · have hb' : (batchSched c.batches).2 = false := by simpa using hb
+        have hall := (batchSched_ok_iff c.batches).1 hb'
+        by_cases hw : c.waitErr = true
+        · simp only [sched, hs', hb', hw, if_true, Bool.false_eq_true, if_false]
+          constructor
+          · intro h; cases h
+          · rintro ⟨h, _⟩; have := (h c List.mem_cons_self).2; rw [hw] at this; cases this
+        · have hw' : c.waitErr = false := by simpa using hw
+          simp only [sched, hs', hb', hw', Bool.false_eq_true, if_false]
+          rw [ih]
+          simp only [Clean, List.mem_cons, forall_eq_or_imp, hs', hw', true_and, and_self]
+          constructor
+          · rintro ⟨h1, h2⟩; exact ⟨h1, hall, h2⟩
+          · rintro ⟨h1, _, h2⟩; exact ⟨h1, h2⟩
+
+
+/-! ### fate layer: a client that answers k requests -/
+
+theorem obsList_length (rem : Option Nat) (cs : List TestCase) : ∀ j, (obsList rem j cs).length = cs.length := by
+  induction cs with
+  | nil => intro j; rfl
+  | cons c t ih => intro j; simp [obsList, ih]
+
+theorem obsList_getElem? (rem : Option Nat) (cs : List TestCase) :
+    ∀ j i, (obsList rem j cs)[i]? = (cs[i]?).map (obsOf rem (j + i)) := by
+  induction cs with
+  | nil => intro j i; simp [obsList]
+  | cons c t ih =>
+    intro j i
+    cases i with
+    | zero => simp [obsList]
+    | succ i =>
+      simp only [obsList, List.getElem?_cons_succ]
+      rw [ih (j + 1) i]
+      congr 2; omega
+
+theorem scriptOf_cases_length (rem : Option Nat) (b : FBatch) : (scriptOf rem b).cases.length = b.cases.length := by
+  simp [scriptOf, obsList_length]
+
+/-- a real answer can only come from a client that is still alive -/
+theorem real_alive (rem : Nat) (b : FBatch) (i : Nat) (k : ServerRunner.Kind)
+    (h : realAnswer (scriptOf (some rem) b) i = some k) :
+    i < rem ∧ i < ServerRunner.Spec.stopIdx b.srv.dies 0 (scriptOf (some rem) b).cases := by
+  unfold realAnswer at h
+  split at h
+  · cases h
+  · split at h
+    · rename_i hlt
+      refine ⟨?_, hlt⟩
+      have hc : (scriptOf (some rem) b).cases[i]? = (b.cases[i]?).map (obsOf (some rem) (0 + i)) :=
+        obsList_getElem? _ _ 0 i
+      rw [hc] at h
+      cases hb : b.cases[i]? with
+      | none => simp [hb] at h
+      | some c =>
+        simp only [hb, Option.map_some, Nat.zero_add] at h
+        by_cases ha : alive (some rem) i = true
+        · simpa [alive] using ha
+        · exfalso
+          cases hl : c.late <;> simp [obsOf, ha, hl] at h
+    · cases h
+
+theorem answered_all_le (mk : Marks) (bs : List FBatch) : ∀ (rem : Nat),
+    (∀ b ∈ compileBatches (some rem) bs, ∀ i, i < b.s.cases.length → answeredOK mk b.s i = true) →
+    (bs.map (fun b => b.cases.length)).sum ≤ rem := by
+  induction bs with
+  | nil => intro rem _; simp
+  | cons b rest ih =>
+    intro rem h
+    have hb := h ⟨scriptOf (some rem) b, stopped (some rem) && b.noticed⟩ (by simp [compileBatches])
+    simp only at hb
+    have hlen := scriptOf_cases_length (some rem) b
+    have hreal : ∀ i, i < b.cases.length →
+        i < rem ∧ i < ServerRunner.Spec.stopIdx b.srv.dies 0 (scriptOf (some rem) b).cases := by
+      intro i hi
+      have := hb i (hlen ▸ hi)
+      unfold answeredOK at this
+      cases hra : realAnswer (scriptOf (some rem) b) i with
+      | none => simp [hra] at this
+      | some k => exact real_alive rem b i k hra
+    have hle := ServerRunner.stopIdx_le b.srv.dies (scriptOf (some rem) b).cases 0
+    rw [Nat.zero_add, hlen] at hle
+    have hsent : sentOf (scriptOf (some rem) b) = b.cases.length ∧ b.cases.length ≤ rem := by
+      cases hn : b.cases.length with
+      | zero =>
+        refine ⟨?_, Nat.zero_le _⟩
+        unfold sentOf
+        split
+        · rfl
+        · show ServerRunner.Spec.stopIdx b.srv.dies 0 (scriptOf (some rem) b).cases = 0
+          omega
+      | succ n =>
+        have h1 := hreal n (by omega)
+        have hnf : ServerRunner.Spec.setupFault (scriptOf (some rem) b) = false := by
+          have := hb n (by rw [hlen]; omega)
+          unfold answeredOK realAnswer at this
+          cases hf : ServerRunner.Spec.setupFault (scriptOf (some rem) b)
+          · rfl
+          · simp [hf] at this
+        refine ⟨?_, by omega⟩
+        unfold sentOf
+        rw [hnf]
+        show ServerRunner.Spec.stopIdx b.srv.dies 0 (scriptOf (some rem) b).cases = n + 1
+        omega
+    have hrest := ih (rem - b.cases.length) (by
+      intro b' hb'
+      apply h
+      simp only [compileBatches, List.mem_cons]
+      right
+      rw [hsent.1]
+      exact hb')
+    simp only [List.map_cons, List.sum_cons]
+    omega
+
+theorem refused_not_answered (mk : Marks) (s : Script) (h : refusedIn s = true) :
+    ∃ i, i < s.cases.length ∧ answeredOK mk s i = false := by
+  unfold refusedIn at h
+  simp only [Bool.and_eq_true, Bool.not_eq_true'] at h
+  obtain ⟨hf, hm⟩ := h
+  refine ⟨ServerRunner.Spec.stopIdx s.dies 0 s.cases, ?_, ?_⟩
+  · cases hc : s.cases[ServerRunner.Spec.stopIdx s.dies 0 s.cases]? with
+    | none => simp [hc] at hm
+    | some x => exact (List.getElem?_eq_some_iff.1 hc).1
+  · simp [answeredOK, realAnswer, hf]
+
+theorem batchSched_sub (bs : List Batch) (s : Script) (h : s ∈ (batchSched bs).1) : s ∈ bs.map (·.s) := by
+  obtain ⟨t, ht, _, _⟩ := batchSched_prefix bs
+  rw [← ht]; exact List.mem_append_left _ h
 
 end ConfModel.RunLoop
